@@ -23,8 +23,7 @@ EffOwners(S, t) == {u \in Users : S.subs[t][u].st = "live" /\ "O" \in Eff(S.subs
 \* the user a request acts as: the session's user, or the user named in extra.obo (root sessions only)
 Actor(a) == IF "obo" \in DOMAIN a /\ a.obo # "" THEN a.obo ELSE IF "s" \in DOMAIN a THEN SessUser[a.s] ELSE ""
 P2PTopics == Topics \ GrpTopics
-\* the two participants of p2p topic "pXY" are given by the constant P2PUsers[t]
-CONSTANT P2PUsers
+\* the two participants of p2p topic "pXY" are given by the constant P2PUsers[t] (declared in TopicCore)
 IsReq(a) == "s" \in DOMAIN a /\ "t" \in DOMAIN a /\ a.t \in Topics
 Accepted(obs) == obs.code >= 200 /\ obs.code < 300
 
